@@ -5,6 +5,8 @@ pub mod c02;
 pub mod c03;
 pub mod c04;
 pub mod c05;
+pub mod c06;
+pub mod c07;
 pub mod c08;
 pub mod c09;
 pub mod c10;
@@ -15,7 +17,7 @@ pub mod c20;
 pub mod selftest;
 
 pub fn all() -> Vec<Box<dyn Property>> {
-    vec![Box::new(c01::C01), Box::new(c02::C02), Box::new(c03::C03), Box::new(c04::C04), Box::new(c05::C05), Box::new(c08::C08), Box::new(c09::C09), Box::new(c10::C10), Box::new(c11::C11), Box::new(c14::C14), Box::new(c15::C15), Box::new(c20::C20)]
+    vec![Box::new(c01::C01), Box::new(c02::C02), Box::new(c03::C03), Box::new(c04::C04), Box::new(c05::C05), Box::new(c06::C06), Box::new(c07::C07), Box::new(c08::C08), Box::new(c09::C09), Box::new(c10::C10), Box::new(c11::C11), Box::new(c14::C14), Box::new(c15::C15), Box::new(c20::C20)]
 }
 
 pub fn lookup(id: &str) -> Option<Box<dyn Property>> {
